@@ -23,3 +23,13 @@ func verifPostSolve(l, r, o []fr.Element) {
 		VerifHookPostSolve(l, r, o)
 	}
 }
+
+// VerifHookVerifierState, when set, observes the challenges derived by Verify, PI(zeta) (public inputs
+// and hashed BSB22 commitments) and the constant term compared with the opening of the linearised polynomial.
+var VerifHookVerifierState func(gamma, beta, alpha, zeta, pi, constLin fr.Element)
+
+func verifVerifierState(gamma, beta, alpha, zeta, pi, constLin fr.Element) {
+	if VerifHookVerifierState != nil {
+		VerifHookVerifierState(gamma, beta, alpha, zeta, pi, constLin)
+	}
+}
